@@ -15,4 +15,6 @@ def run(ctx):
         "beacon signatures are deterministic byte strings that encode (round, identity); empty signatures are not explored",
         "Next on a never positioned cursor is outside the Cursor contract; the reference names what each back-end "
         "family does (bolt kinds: not found; ring: as if positioned on its first element)",
+        "a bolt cursor iterates the snapshot of its read transaction and stays at the end once it ran off it; the ring's "
+        "cursor iterates the live map by round and a call that finds nothing leaves it where it was",
     ]
